@@ -8,6 +8,7 @@ import (
 	"fmt"
 	"reflect"
 	"sort"
+	"strings"
 
 	"github.com/EdgeCast/vflow/sflow"
 	"github.com/EdgeCast/vflow/zzverif/ref"
@@ -306,7 +307,12 @@ func Diff(path string, got, want interface{}) (string, string) {
 				return path + "." + k, "missing"
 			}
 			if !wok {
-				return path + "." + k, fmt.Sprintf("unexpected key (value %v)", gv)
+				// an extra RECORD (or sample list) is output for something that should have been skipped;
+				// an extra leaf field inside a record the statement does not exclude
+				if strings.HasSuffix(path, "Records") || path == "" {
+					return path + "." + k, fmt.Sprintf("unexpected key (value %v)", gv)
+				}
+				continue
 			}
 			if p, m := Diff(path+"."+k, gv, wv); p != "" {
 				return p, m
